@@ -3,7 +3,7 @@
 # Applies a patch to a scratch copy of /repo (outside /repo and /verif), runs the
 # check against it, removes the copy. Exit status is the check's.
 set -u
-patch="$1"; prop="$2"; shift 2
+patch="$(realpath "$1")"; prop="$2"; shift 2
 d=$(mktemp -d /tmp/hclmut.XXXXXX)
 trap 'rm -rf "$d"' EXIT
 rsync -a --exclude .git /repo/ "$d/"
